@@ -23,7 +23,7 @@ ENGINE = "simsched"
 
 APIS = ["compute_dynamics", "compute_dynamics_with_field", "gradient",
         "tempo", "mean_field_tempo", "pt_tempo", "gibbs_tempo", "pt_tebd",
-        "correlations"]
+        "correlations", "bath_dynamics"]
 PROGRESS = [None, "bar", "simple", "silent"]
 HORIZON_MS = 5000
 
@@ -61,18 +61,19 @@ FAULTS_BY_API = {
     "gibbs_tempo": ["spectral_density"],
     "pt_tebd": ["pt_raises", "pt_short", "shape", "gate_task"],
     "correlations": ["hamiltonian", "cap", "shape"],
+    "bath_dynamics": ["hamiltonian", "cap", "shape"],
 }
 
 
 def gen_case(rng, tier="quick"):
-    api = _pick(rng, APIS, [4, 4, 4, 2, 2, 2, 2, 3, 2])
+    api = _pick(rng, APIS, [4, 4, 4, 2, 2, 2, 2, 3, 2, 1])
     progress = _pick(rng, PROGRESS, [3, 4, 1, 1])
     steps = rng.randrange(2, 7)
     case = {"api": api, "progress": progress, "steps": steps,
             "pt": _pick(rng, ["z", "x"]), "npts": _pick(rng, [1, 1, 2]),
             "calls": 1, "fault": None}
     if api in ("tempo", "mean_field_tempo", "pt_tebd", "gibbs_tempo",
-               "pt_tempo") and rng.random() < 0.4:
+               "pt_tempo", "bath_dynamics") and rng.random() < 0.4:
         case["calls"] = 2
     if api == "pt_tebd":
         case["parallel"] = _pick(rng, [None, "multithread", "multiprocess"],
@@ -101,7 +102,7 @@ def gen_case(rng, tier="quick"):
             fault["k"] = rng.randrange(0, n + 1)
             fault["post"] = bool(rng.randrange(2))
         elif kind in ("hamiltonian", "gamma", "lindblad", "field_eom"):
-            if api in ("gradient", "correlations"):
+            if api in ("gradient", "correlations", "bath_dynamics"):
                 fault["mode"] = "call"
                 fault["n"] = rng.randrange(1, 4 * n + 1)
             else:
@@ -625,6 +626,24 @@ def sc_correlations(case, sim, plan):
     return [call]
 
 
+def sc_bath_dynamics(case, sim, plan):
+    import oqupy
+    o = models.ops()
+    n = case["steps"]
+    h, g, lo = _td_callables(case, sim, plan, 0.1)
+    system = oqupy.TimeDependentSystem(h)
+    pt = _pts(dict(case, npts=1), n)[0]
+    bath = models.make_bath(case["pt"])
+    ttc = oqupy.TwoTimeBathCorrelations(system, bath, pt,
+                                        initial_state=o["up"])
+    calls = [lambda: ttc.occupation(1.0, 0.5,
+                                    progress_type=case["progress"])]
+    if case.get("calls", 1) == 2:
+        calls.append(lambda: ttc.correlation(
+            1.0, 0.2, time_2=0.3, progress_type=case["progress"]))
+    return calls
+
+
 SCENARIOS = {
     "compute_dynamics": sc_compute_dynamics,
     "compute_dynamics_with_field": sc_compute_dynamics_with_field,
@@ -635,6 +654,7 @@ SCENARIOS = {
     "gibbs_tempo": sc_gibbs_tempo,
     "pt_tebd": sc_pt_tebd,
     "correlations": sc_correlations,
+    "bath_dynamics": sc_bath_dynamics,
 }
 
 
